@@ -264,7 +264,14 @@ class Run:
                     incone = mod in conenames and (rest in conenames[mod] or rest.split('::')[-1] in conenames[mod])
                 if not incone: continue
                 nobl += 1
-                self.obligations.append({'name': f"{mod}::{rest}", 'engine': 'verus/z3', 'ok': bool(fb['success']),
+                ok = bool(fb['success'])
+                if not ok:
+                    # the function failed some obligation: it counts against THIS property only if one of its failed
+                    # obligations is attributed to this property (clause tags / implicit-obligation rule)
+                    mine = [f for f in fails if self.prop in f['props'] and f['fn'].endswith('::' + rest) and file_to_module(f['fn'].split('::')[0]) == mod]
+                    others = [f for f in fails if f['fn'].endswith('::' + rest) and file_to_module(f['fn'].split('::')[0]) == mod]
+                    ok = bool(others) and not mine
+                self.obligations.append({'name': f"{mod}::{rest}", 'engine': 'verus/z3', 'ok': ok,
                                          'ms': round(fb['time-micros'] / 1000, 2), 'mode': fb.get('mode:')})
         for f in fails:
             if self.prop in f['props']:
